@@ -635,6 +635,22 @@ pub struct SkipRen {
 }
 user_type!(SkipRen, None, [(db_id: io), (a: p u64, "renamed"), (s: s String), (os: so u64), (b: p String, "b")]);
 
+/// renamed fields of every kind the macro treats differently: Option (to_db_values has its own branch for options), vector, scalar
+#[derive(Debug, Clone, PartialEq, DbType)]
+pub struct RenOpt {
+    db_id: Option<DbId>,
+    #[agdb(rename = "nick")]
+    nickname: Option<String>,
+    #[agdb(rename = "cnt")]
+    count: Option<u64>,
+    #[agdb(rename = "v")]
+    vals: Vec<i64>,
+    name: String,
+    #[agdb(rename = "name2")]
+    other: String,
+}
+user_type!(RenOpt, None, [(db_id: io), (nickname: o String, "nick"), (count: o u64, "cnt"), (vals: p Vec<i64>, "v"), (name: p String, "name"), (other: p String, "name2")]);
+
 #[derive(Debug, Clone, PartialEq, DbElement)]
 pub struct Elem {
     db_id: Option<DbId>,
@@ -792,6 +808,7 @@ fn uregistry() -> Vec<UDriver> {
         udriver::<OuterNoOpt2>("OuterNoOpt2"),
         udriver::<Outer2>("Outer2"),
         udriver::<SkipRen>("SkipRen"),
+        udriver::<RenOpt>("RenOpt"),
         udriver::<Elem>("Elem"),
         udriver::<StdTypes>("StdTypes"),
         udriver::<Empty>("Empty"),
